@@ -61,28 +61,41 @@ func init() {
 	}
 }
 
-// exploreSpaces runs one explorer per (space, configuration).
+// exploreSpaces runs one explorer per (space, configuration); the configurations of a space share the worker pool.
 func exploreSpaces[T any](r *Run, d *Driver[T], sps []space, or Oracles, mod func(c *Cfg)) {
 	for _, sp := range sps {
+		if r.expired() {
+			r.St.Exhaustive = false
+			r.St.CapsHit = append(r.St.CapsHit, "deadline-before:"+d.Name+"/"+sp.name)
+			return
+		}
+		var es []*Explorer[T]
+		var cs []string
 		for _, cfg := range sp.cfgs {
 			if mod != nil {
 				mod(&cfg)
 			}
-			if r.expired() {
-				r.St.Exhaustive = false
-				r.St.CapsHit = append(r.St.CapsHit, "deadline-before:"+d.Name+"/"+sp.name)
-				return
+			ff := sp.finalFlags
+			if or.Extension && !or.Schedule {
+				ff = nil
 			}
-			t0 := time.Now()
-			s0, t0n := r.St.States, r.St.Transitions
-			e := &Explorer[T]{Run: r, Prop: r.Prop, Drv: d, Gen: sp.gen, Cfg: cfg, Or: or, BeyondErr: sp.beyondErr, BeyondOk: sp.beyondOk,
-				FinalFlags: sp.finalFlags, SplitDepth: sp.split}
-			e.run()
-			key := fmt.Sprintf("%s %s [%s]", d.Name, sp.name, cfg)
-			r.noteSpace(key, r.St.States-s0, r.St.Transitions-t0n, time.Since(t0))
+			es = append(es, &Explorer[T]{Run: r, Prop: r.Prop, Drv: d, Gen: sp.gen, Cfg: cfg, Or: or, BeyondErr: sp.beyondErr, BeyondOk: sp.beyondOk,
+				FinalFlags: ff, SplitDepth: sp.split, Probes: probeAll})
+			cs = append(cs, cfg.String())
 		}
+		t0 := time.Now()
+		s0, t0n := r.St.States, r.St.Transitions
+		exploreMany(r, es)
+		key := fmt.Sprintf("%s %s x%d cfgs %v", d.Name, sp.name, len(cs), cs)
+		if len(key) > 600 {
+			key = key[:600] + "...]"
+		}
+		r.noteSpace(key, r.St.States-s0, r.St.Transitions-t0n, time.Since(t0))
 	}
 }
+
+// probeAll: C03 continuation probes (set only while C03 runs)
+var probeAll [][]byte
 
 func (r *Run) noteSpace(key string, states, trans int64, d time.Duration) {
 	l, _ := r.Bounds["spaces"].([]string)
